@@ -360,3 +360,29 @@ Definition ref_first (o : qopts) (key : bytes) (kp : cidp) (bs : list block) : o
   find (carries (q_whole o) key kp) bs.
 Definition ref_keys (whole : bool) (bs : list block) : list bytes :=
   map (fun b => match cid_parse (fst b) with Some p => key_of whole (fst b) p | None => fst b end) bs.
+
+(* the containers the theorems range over *)
+Inductive container :=
+| CV1
+| CV2 (chi clo dpad ipad : N) (emb : option (N * bool)). (* characteristics, paddings, embedded
+                                                            index: (codec, has identity entries) *)
+
+Definition car_file (ct : container) (roots : list bytes) (bs : list block) (npad : N) : option bytes :=
+  let p := payload_np roots bs npad in
+  match ct with
+  | CV1 => Some p
+  | CV2 chi clo dpad ipad None => Some (v2_file chi clo dpad ipad p None)
+  | CV2 chi clo dpad ipad (Some (codec, wid)) =>
+      match flat_of codec (payload_records wid roots bs) with
+      | Some i => Some (v2_file chi clo dpad ipad p (Some (idx_write i)))
+      | None => None
+      end
+  end.
+
+(* identity setting of the index the store ends up using: the supplied index's, else the embedded
+   index's, else (generated on open) the store's own StoreIdentityCIDs *)
+Definition index_wid (o : qopts) (ct : container) (sup : option qopts) : bool :=
+  match sup with
+  | Some og => q_storeid og
+  | None => match ct with CV2 _ _ _ _ (Some (_, wid)) => wid | _ => q_storeid o end
+  end.
